@@ -3,6 +3,7 @@ package num
 import (
 	"fmt"
 	"os"
+	"runtime/debug"
 	"strings"
 	"testing"
 	"time"
@@ -11,6 +12,7 @@ import (
 )
 
 func TestRoots(t *testing.T) {
+	debug.SetGCPercent(800)
 	prog, err := core.Load("/repo", "", nil)
 	if err != nil {
 		t.Fatal(err)
@@ -25,8 +27,17 @@ func TestRoots(t *testing.T) {
 			t.Fatalf("no func %s", spec)
 		}
 		e := NewEngine(prog.SPkg, prog.CallGraph())
+		e.SpareOnReflectSet["packetBuffer"] = true
 		if os.Getenv("TRACE") != "" {
 			e.Trace = func(s string) { fmt.Println("TRACE", s) }
+			e.TraceFn = os.Getenv("TRACEFN")
+		}
+		if pat := os.Getenv("DEBUGFORGET"); pat != "" {
+			DebugForget = func(name string) {
+				if strings.Contains(name, pat) {
+					fmt.Printf("FORGET %s in %s\n%s\n", name, e.ctx(), debug.Stack()[:1800])
+				}
+			}
 		}
 		st := time.Now()
 		e.AnalyzeRoot(fn, RootOptions{ZeroReceiver: true})
